@@ -58,6 +58,7 @@ type Contract struct {
 	Inline    bool
 	Missing   bool
 	Split     int
+	Unfold    map[string]bool
 	CaseVar   string
 	CaseVals  []string
 	Unclaimed map[string]string
@@ -174,6 +175,13 @@ func parseContractFile(fset *token.FileSet, f *ast.File, pkg *packages.Package) 
 				cur.Opaque = true
 			case "inline":
 				cur.Inline = true
+			case "unfold":
+				if cur.Unfold == nil {
+					cur.Unfold = map[string]bool{}
+				}
+				for _, f := range strings.Fields(rest) {
+					cur.Unfold[strings.NewReplacer("(", "", ")", "", "*", "").Replace(f)] = true
+				}
 			case "split":
 				cur.Split = 16
 				if n, err := strconv.Atoi(rest); err == nil {
